@@ -9,6 +9,7 @@ package vfpkg
 // proof over another transcript, ...) are played by the scripted client-role peer.
 
 import (
+	"bytes"
 	"encoding/json"
 	"fmt"
 	"testing"
@@ -23,7 +24,7 @@ type c07Case struct {
 	Param  int    `json:"param"`
 }
 
-var c07Behaviours = []string{"no-cert-msg", "empty", "trusted", "untrusted", "expired", "wrong-eku", "cv-omitted", "cv-otherkey", "cv-othertranscript", "cv-corrupt"}
+var c07Behaviours = []string{"no-cert-msg", "empty", "trusted", "untrusted", "expired", "wrong-eku", "enc-untrusted", "enc-expired", "cv-omitted", "cv-otherkey", "cv-othertranscript", "cv-corrupt"}
 
 // c07Allows: the documented meaning of the six ClientAuthType constants, plus the standard's rule
 // that the ECDHE key exchange needs both client certificates.
@@ -42,6 +43,12 @@ func c07Allows(policy ClientAuthType, ecdhe bool, beh string) (complete bool, ve
 	switch beh {
 	case "untrusted", "expired":
 		if verifies {
+			return false, false
+		}
+	case "enc-untrusted", "enc-expired":
+		// only the encryption certificate is bad: it is part of the client's identity for ECDHE
+		// (the key agreement uses it); for ECC suites it is an unused extra certificate
+		if verifies && ecdhe {
 			return false, false
 		}
 	case "wrong-eku":
@@ -67,6 +74,10 @@ func c07Run(c c07Case) (sig, msg string) {
 		sigC, encC = p.CliSigExpired, p.CliEncExpired
 	case "wrong-eku":
 		sigC, encC = p.CliSigCodeSign, p.CliEncCodeSign
+	case "enc-untrusted":
+		encC = p.CliEncB
+	case "enc-expired":
+		encC = p.CliEncExpired
 	}
 	pcfg := &Config{Time: vfTime, InsecureSkipVerify: true, CipherSuites: []uint16{c.Suite}, Certificates: []Certificate{sigC, encC}}
 	peerDone := false
@@ -244,6 +255,76 @@ func c07History(h c07Hist) (sig, msg string, resumed bool) {
 	return "", "", false
 }
 
+// c07FailedThenResume: a handshake that fails client authentication (certificate presented, proof
+// of possession by another key) must not leave a resumable session behind: the peer then offers the
+// session identifier it was given, with the master secret it computed.
+func c07FailedThenResume(suite uint16, policy int) (sig, msg string) {
+	p := vfGetPKI()
+	ucfg := &Config{Time: vfTime, Certificates: []Certificate{p.SrvSig, p.SrvEnc}, CipherSuites: []uint16{suite},
+		ClientAuth: ClientAuthType(policy), ClientCAs: p.A.pool, SessionCache: NewLRUSessionCache(8)}
+	vfPeerTuneConfig(ucfg)
+	pcfg := &Config{Time: vfTime, InsecureSkipVerify: true, CipherSuites: []uint16{suite}, Certificates: []Certificate{p.CliSig, p.CliEnc}}
+	var sid, master []byte
+	r1 := vfRunVsPeer(false, ucfg, pcfg, func(pc *Conn) error {
+		cp := vfNewCliPeer(pc)
+		if err := cp.SendClientHello(vfCHOpt{}); err != nil {
+			return err
+		}
+		if err := cp.ReadServerFlight(); err != nil {
+			return err
+		}
+		sid = append([]byte(nil), cp.sh.sessionId...)
+		cp.SendCertificate([][]byte{p.CliSig.Certificate[0], p.CliEnc.Certificate[0]})
+		enc := p.CliEnc
+		if err := cp.PrepareCKE(&enc); err != nil {
+			return err
+		}
+		cp.SendCKE(nil)
+		cp.SendCertVerify(c02OtherKey(), nil, false) // no proof of possession of the presented certificate
+		cp.ComputeMaster()
+		master = append([]byte(nil), cp.hs.masterSecret...)
+		cp.EstablishKeys()
+		cp.SendCCS()
+		cp.SendFinished(false)
+		cp.ReadServerFinished()
+		return nil
+	}, nil)
+	if r1.UPanic != "" {
+		return "panic", r1.UPanic
+	}
+	if r1.UErr == nil {
+		return "policy-table:cv-otherkey", "server completed although the CertificateVerify was made with another key"
+	}
+	if sid == nil {
+		return "", ""
+	}
+	resumed := false
+	r2 := vfRunVsPeer(false, ucfg, pcfg, func(pc *Conn) error {
+		cp := vfNewCliPeer(pc)
+		if err := cp.SendClientHello(vfCHOpt{SessionID: sid}); err != nil {
+			return err
+		}
+		if bytes.Equal(cp.sh.sessionId, sid) {
+			resumed = true
+			cp.SetMaster(master)
+			cp.EstablishKeys()
+			if err := cp.ReadServerFinished(); err != nil {
+				return err
+			}
+			cp.SendCCS()
+			cp.SendFinished(false)
+		}
+		return nil
+	}, nil)
+	if r2.UPanic != "" {
+		return "panic", r2.UPanic
+	}
+	if resumed {
+		return "resumed-failed-handshake", fmt.Sprintf("a handshake that failed client authentication left a session that the server resumed (completed=%v, %d peer certificates reported)", r2.UErr == nil, len(r2.UState.PeerCertificates))
+	}
+	return "", ""
+}
+
 func TestVF_C07(t *testing.T) {
 	rec := vfRec("C07", "C07-clientauth", "six policies x client behaviours (Certificate omitted, empty, trusted, untrusted CA, expired, wrong EKU, CertificateVerify omitted / by another key / over another transcript / corrupted) x suites played by a scripted client-role peer, plus two-connection histories (policy P1 then P2 on a shared session cache x client certificate kind); oracle: table from the documented ClientAuthType semantics; non-trivial = everything except (NoClientCert, no certificate); distinct = the case")
 	suites := []uint16{ECC_SM4_GCM_SM3, ECDHE_SM4_GCM_SM3}
@@ -293,6 +374,20 @@ func TestVF_C07(t *testing.T) {
 					rec.Eval(p1 != p2, h, cl)
 				}
 			}
+		}
+	}
+	for _, suite := range suites {
+		for pol := 1; pol <= 5; pol++ {
+			idx++
+			if !vfMine(idx) {
+				continue
+			}
+			c := map[string]interface{}{"history": "failed-client-auth-then-offer-session", "suite": suite, "policy": pol}
+			sig, msg := c07FailedThenResume(suite, pol)
+			if sig != "" {
+				rec.Violation(sig, c, "%s", msg)
+			}
+			rec.Eval(true, c, "history:failed-then-resume")
 		}
 	}
 	rec.SetExhaustive(true, fmt.Sprintf("catalogue: 6 policies x %d suites x %d behaviours and %d histories enumerated completely; parametrised behaviours additionally sampled", len(suites), len(c07Behaviours), nh))
